@@ -2176,6 +2176,14 @@ def _validate_priority(stream_id, weight, depends_on):
             "Stream %d may not depend on itself" % stream_id
         )
 
+    # A stream can only depend on a stream, or on the root (stream 0): a
+    # value that does not fit the 31 bits of a stream ID would be sent as a
+    # different dependency with the exclusive flag set, or not be sent at all.
+    if depends_on is not None and (depends_on < 0 or depends_on > 2**31 - 1):
+        raise ProtocolError(
+            "Stream dependency %d is not a valid stream ID" % depends_on
+        )
+
     # Weight must be between 1 and 256.
     if weight is not None and (weight > 256 or weight < 1):
         raise ProtocolError(
